@@ -112,8 +112,11 @@ CanonList(toks, zm, nc) ==
       keep == SelectSeq([i \in 1..n |-> i], LAMBDA i : ~IsWs(toks[i]))
   IN [j \in 1..Len(keep) |-> all[keep[j]]]
 
+\* INVALID: the value is not valid for its property (CSS-wide keyword inside a list, ...).  On the
+\* input side this is outside the domain like OOD; an output that is INVALID for a valid input differs.
+Invalid == Marker("INVALID")
 RECURSIVE HasOOD(_)
-HasOOD(cts) == \E i \in 1..Len(cts) : cts[i].c = "OOD" \/ HasOOD(cts[i].a)
+HasOOD(cts) == \E i \in 1..Len(cts) : cts[i].c \in {"OOD", "INVALID"} \/ HasOOD(cts[i].a)
 
 IsComma(ct) == ct.c = "comma"
 IsSlashCT(ct) == ct.c = "delim" /\ ct.b = <<47>>
